@@ -365,6 +365,7 @@ class FIELD_SETTER:
     views as they were, or stores the PARSED value under the output name (no_output: only in the
     attribute dictionary), touching nothing else; the `unprovided` sentinel is never stored."""
     cases = {pol: dict(self=_schema(), value=OBJ, field=_plain_field(pol), setter=NONE) for pol in ("throw", "exclude", "preserve")}
+    replay = "schema_setter"
     setup = staticmethod(_setter_setup)
     requires = _PRE
     returns_by_case = {pol: _setter_post(pol) for pol in ("throw", "exclude", "preserve")}
@@ -603,6 +604,7 @@ class FIELD_DELETER:
     """deleting a declared (non-property) field: refused for immutable and for required fields, refused
     (or ignored, by option) when absent; otherwise the key AND the attribute of that field go, nothing else."""
     cases = {"plain": dict(self=_schema(), field=_del_field(), deleter=NONE)}
+    replay = "schema_deleter"
     setup = staticmethod(_del_setup)
     requires = _PRE
     returns = {"only_deletable": "not %s and not %s" % (_IMMUT, _REQ_F),
